@@ -390,6 +390,8 @@ func checkC17(c *Ctx) {
 	ruleGreetingAfterStateInit(c, "C17.e")
 	c.rule("C17.f", "capabilities learnt in plaintext are discarded by a successful STARTTLS", 2)
 	ruleCapsInvalidation(c, "C17.f", []string{"startTLSCommand"})
+	c.rule("C17.g", "the STARTTLS caller is released only after the connection has been switched to TLS", 1)
+	ruleUpgradeBeforeRelease(c, "C17.g")
 	c.checkCanAuthAs("C17.e")
 	ruleCredentialsGated(c, "C17.e")
 }
